@@ -288,6 +288,27 @@ func gen(r *Rng, tier string, emit func(string)) {
 			emit("newpub " + Hex(append([]byte{pre}, b32(x)...)))
 		}
 	}
+	// valid keys with an extreme ordinate (|y| tiny, or y next to p): the square root comes out of the field
+	// code in a non-canonical representation there, which is where parity decisions go wrong
+	for i := 0; i < 30*scale; i++ {
+		yv := big.NewInt(int64(r.Intn(400)))
+		if r.Chance(15) {
+			yv = new(big.Int).SetUint64(r.U64() >> uint(r.Intn(40)))
+		}
+		if r.Bool() {
+			yv = new(big.Int).Sub(eclib.P, yv)
+		}
+		if pt, ok := eclib.PointWithY(yv); ok {
+			b := eclib.Compress(pt)
+			emit("newpub " + Hex(b))
+			emit("newpub " + Hex(append([]byte{b[0] ^ 1}, b[1:]...)))
+			somePubs = append(somePubs, b)
+			if r.Chance(50) {
+				emit("uncompress " + Hex(b))
+				emit("ecdh " + Hex(b) + " " + Hex(b32(validScalar(r, edges))))
+			}
+		}
+	}
 	// --- signing with explicit nonce, verification, recovery
 	nsig := 45 * scale
 	for i := 0; i < nsig; i++ {
